@@ -8,6 +8,7 @@ NON_OPENING = ["x", "X", "_x", "1", "1.5", '"s"', ")", "]", ">>", ",", ":", ".",
                "||", "&&", "==", "<", "<>", "+", "*", "-", "!", "as", "assert", "case", "const", "external", "fn", "if", "import",
                "let", "opaque", "panic", "pub", "todo", "type", "use", "xY", "é", "$", "&"]
 BRACES = {"{", "}"}
+STARTERS = ["x", "X", "_x", "1", '"s"', "-", "..", "!"]
 
 
 def build_file(rng, n_items):
@@ -63,7 +64,7 @@ def run_c03(res, tier, seed):
     n_files = 250 if tier == "quick" else 4000
     per_file = 6 if tier == "quick" else 12
     kmax = 1 if tier == "quick" else 3
-    sys_budget = 20000 if tier == "quick" else 200000
+    sys_budget = 45000 if tier == "quick" else 400000
     cases = []
     for _ in range(n_files):
         items = build_file(rng, rng.randrange(2, 5))
@@ -90,6 +91,10 @@ def run_c03(res, tier, seed):
                 edits = [(toks[:i] + toks[i + 1:], f"delete {toks[i]!r} at {i}")]
                 for t in rng.sample(NON_OPENING, 2):
                     edits.append((toks[:i] + [t] + toks[i + 1:], f"replace {toks[i]!r} by {t!r} at {i}"))
+                    edits.append((toks[:i] + [t] + toks[i:], f"insert {t!r} at {i}"))
+                # every token class that can START a pattern or an expression, inserted at every position (a stray operand
+                # next to `case x`, `let`, a call ... must not let an inner construct take a closer it never opened)
+                for t in STARTERS:
                     edits.append((toks[:i] + [t] + toks[i:], f"insert {t!r} at {i}"))
                 for vt, lg in edits:
                     new_texts = list(texts)
@@ -204,8 +209,17 @@ def run_c03(res, tier, seed):
     aout, _ = common.run_lines(common.HARNESS_BIN, areqs) if areqs else ([], 0)
     for j, (idx, bad, offs) in enumerate(follow):
         items, texts, new_texts, v, log = cases[idx]
-        brace = [k for k in aout[2 * j].split(" ")[-1].split("/") if k != "ERROR"]
-        nxt = [k for k in aout[2 * j + 1].split(" ")[-1].split("/") if k != "ERROR"]
+        # (`~` = the node has no `{` of its own: for the brace-delimited kinds that is a different cause than the recorded ones)
+        def clean(path):
+            out = []
+            for k in path.split("/"):
+                base = k.rstrip("~")
+                if base == "ERROR":
+                    continue
+                out.append(base + ("-without-own-opener" if k.endswith("~") and base in ("CASE", "BLOCK", "ADT") else ""))
+            return out
+        brace = clean(aout[2 * j].split(" ")[-1])
+        nxt = clean(aout[2 * j + 1].split(" ")[-1])
         # site = the construct that swallowed the victim's closing brace (first non-ERROR ancestor), or, when the
         # brace still closes the victim, the construct that swallowed the first token of the next definition
         proper = brace[:2] in (["BLOCK", "FUNCTION"], ["ADT", "SOURCE_FILE"])
